@@ -6,7 +6,7 @@
    the regenerated summary of the constructor the predicate's DSL path is wired to. *)
 From Coq Require Import List ZArith Bool String Lia.
 From RG.Base Require Import Outcome.
-From RG.Filters Require Import FilterIR FilterAlgebra Predicates FilterEval.
+From RG.Filters Require Import ExprFacts FilterIR FilterAlgebra Predicates FilterEval.
 From RGW Require Import Gen_FilterTables Gen_FilterPreds Inst_C02.
 Import ListNotations.
 Local Open Scope string_scope.
@@ -82,6 +82,82 @@ Print Assumptions C02_object_is_table_ok.
 Theorem C02_node_is_table_ok : node_is_okb gen_node_is = true.
 Proof. exact node_is_ok. Qed.
 Print Assumptions C02_node_is_table_ok.
+
+(* ---------------------------------------------------------------- Pure, ConstSlice, Object.*, SinkType.Is: the helpers *)
+Theorem C02_helpers_have_the_documented_cases :
+  helpers_okb gen_pure_cases gen_typeexpr_cases gen_identof_cases gen_constslice_cases gen_sinkroot_cases gen_sinktype_cases
+              gen_purelist_body gen_containing_func_body gen_sinktype_closure = true.
+Proof. exact helpers_ok. Qed.
+Print Assumptions C02_helpers_have_the_documented_cases.
+
+(* Pure never accepts an expression whose evaluation calls a function or receives from a channel; inside the whitelist of
+   node kinds it knows, it accepts exactly the expressions that do neither *)
+Theorem C02_pure_sound : forall e, is_pure e = true -> effect_free e.
+Proof. exact is_pure_sound. Qed.
+Print Assumptions C02_pure_sound.
+
+Theorem C02_pure_iff_on_whitelist : forall e, whitelisted e -> (is_pure e = true <-> effect_free e).
+Proof. exact is_pure_iff_on_whitelist. Qed.
+Print Assumptions C02_pure_iff_on_whitelist.
+
+Theorem C02_const_slice_iff : forall e, is_constant_slice e = true <-> const_slice_form e.
+Proof. exact is_constant_slice_iff. Qed.
+Print Assumptions C02_const_slice_iff.
+
+(* Object.Is / IsGlobal look at the identifier the expression is (parentheses stripped; for a selector: the selected name,
+   never its operand), and reject everything else *)
+Theorem C02_ident_of_spec : forall e id,
+  ident_of e = Some id <->
+  (exists a n, strip_parens e = GIdent a n /\ id = (a, n)) \/
+  (exists a x sa n, strip_parens e = GSelector a x (GIdent sa n) /\ id = (sa, n)).
+Proof. exact ident_of_spec. Qed.
+Print Assumptions C02_ident_of_spec.
+
+Theorem C02_object_is_iff : forall kind e, kind <> "" ->
+  (object_is kind e = true <-> exists a n, ident_of e = Some (a, n) /\ a_obj a = kind).
+Proof. exact object_is_iff. Qed.
+Print Assumptions C02_object_is_iff.
+
+Theorem C02_no_ident_rejects : forall e, ident_of e = None -> (forall k, object_is k e = false) /\ object_is_global e = false.
+Proof. exact no_ident_rejects. Qed.
+Print Assumptions C02_no_ident_rejects.
+
+(* SinkType: the sink of a call argument is the type of the parameter that receives it *)
+Theorem C02_sink_of_call_argument : forall ps variadic last_elem ellipsis i,
+  (variadic = false -> i < List.length ps) -> (variadic = true -> ps <> []) ->
+  (variadic = true -> ellipsis = true -> i < List.length ps) ->
+  find_sink (PCall (CSignature ps variadic last_elem) (Some i) ellipsis) = receiving_param ps variadic last_elem ellipsis i.
+Proof. exact sink_of_call_argument. Qed.
+Print Assumptions C02_sink_of_call_argument.
+
+Theorem C02_sink_of_assignment : forall lhs i, i < List.length lhs -> find_sink (PAssign true true (Some i) lhs) = nth i lhs no_sink.
+Proof. exact sink_of_assignment. Qed.
+Print Assumptions C02_sink_of_assignment.
+
+Theorem C02_sink_of_return : forall rs i, find_sink (PReturn (Some i) (Some rs)) = nth i rs no_sink.
+Proof. exact sink_of_return. Qed.
+Print Assumptions C02_sink_of_return.
+
+Theorem C02_sink_of_struct_field : forall fs name t key_side, assoc name fs = Some t ->
+  find_sink (PComposite (LStruct fs) (Some (key_side, name)) None) = t.
+Proof. exact sink_of_struct_field. Qed.
+Print Assumptions C02_sink_of_struct_field.
+
+Theorem C02_sink_of_positional_field : forall fs i, find_sink (PComposite (LStruct fs) None (Some i)) = nth i (map snd fs) no_sink.
+Proof. exact sink_of_positional_field. Qed.
+Print Assumptions C02_sink_of_positional_field.
+
+Theorem C02_sink_of_map_literal : forall k v name pos,
+  find_sink (PComposite (LMap k v) (Some (true, name)) pos) = k /\ find_sink (PComposite (LMap k v) (Some (false, name)) pos) = v.
+Proof. exact sink_of_map_literal. Qed.
+Print Assumptions C02_sink_of_map_literal.
+
+Theorem C02_no_sink_cases :
+  (forall b p l, find_sink (PAssign false b p l) = no_sink) /\
+  (forall a p l, find_sink (PAssign a false p l) = no_sink) /\
+  find_sink POtherParent = no_sink /\ find_sink (PIndexOperand None) = no_sink.
+Proof. exact no_sink_cases. Qed.
+Print Assumptions C02_no_sink_cases.
 
 (* ---------------------------------------------------------------- OfKind *)
 Theorem C02_ofkind_table_correct :
@@ -170,4 +246,28 @@ Proof. vm_compute. repeat split. Qed.
 Example c02_has_pointers_samples :
   has_pointers_gen (SStruct [SBasic "Int8"; SArray (SBasic "Uint16"); SNamed (SStruct [SBasic "Float32"])]) = false /\
   has_pointers_gen (SStruct [SBasic "Int8"; SNamed (SBasic "String")]) = true /\ has_pointers_gen (SArray SOther) = true.
+Proof. vm_compute. repeat split. Qed.
+
+(* gi + int64(f1()): the conversion is no call, f1() is; []byte("s") and []int{1, ci} are constant slices; (strings.ToUpper)
+   is the function ToUpper, not the package; take2("a", $$) sinks into the second parameter *)
+Definition a0 : ann := {| a_const := false; a_byteslice := false; a_obj := ""; a_global := false |}.
+Definition a_typ : ann := {| a_const := false; a_byteslice := false; a_obj := "TypeName"; a_global := false |}.
+Definition a_fn : ann := {| a_const := false; a_byteslice := false; a_obj := "Func"; a_global := true |}.
+Definition a_pkg : ann := {| a_const := false; a_byteslice := false; a_obj := "PkgName"; a_global := false |}.
+Definition a_c : ann := {| a_const := true; a_byteslice := false; a_obj := ""; a_global := false |}.
+Definition a_bs : ann := {| a_const := false; a_byteslice := true; a_obj := ""; a_global := false |}.
+
+Example c02_helper_samples :
+  is_pure (GBinary a0 (GIdent a0 "gi") (GCall a0 (GIdent a_typ "int64") [GIdent a0 "gi"])) = true /\
+  is_pure (GBinary a0 (GIdent a0 "gi") (GCall a0 (GIdent a_typ "int64") [GCall a0 (GIdent a_fn "f1") []])) = false /\
+  is_pure (GUnary a0 "ARROW" (GIdent a0 "gch")) = false /\
+  is_constant_slice (GCall a0 (GTypeLit a_bs "ArrayType") [GBasicLit a_c "STRING"]) = true /\
+  is_constant_slice (GComposite a0 [GBasicLit a_c "INT"; GIdent a_c "ci"]) = true /\
+  is_constant_slice (GComposite a0 [GBasicLit a_c "INT"; GIdent a0 "gi"]) = false /\
+  object_is "Func" (GParen a0 (GSelector a0 (GIdent a_pkg "strings") (GIdent a_fn "ToUpper"))) = true /\
+  object_is "PkgName" (GSelector a0 (GIdent a_pkg "strings") (GIdent a_fn "ToUpper")) = false /\
+  object_is "Var" (GBinary a0 (GIdent a0 "a") (GIdent a0 "b")) = false /\
+  find_sink (PCall (CSignature ["string"; "int"] false "") (Some 1%nat) false) = "int" /\
+  find_sink (PCall (CSignature ["string"; "[]int"] true "int") (Some 3%nat) false) = "int" /\
+  find_sink (PCall (CSignature ["string"; "[]int"] true "int") (Some 1%nat) true) = "[]int".
 Proof. vm_compute. repeat split. Qed.
